@@ -472,3 +472,6 @@ def run(ctx: Ctx, rep: Report, tier: str):
     from rules.C06 import C06 as _C06c
     _alias12(rep, ["C06.R6"], "C12.Y14", "persisted state belongs to one pair of roots: storage_label names both providers' connection ids and BOTH roots (C06.R6), so a sync "
              "re-pointed at another root never inherits entries - ids of objects outside its root", 1, lambda: _C06c(ctx, rep).r6())
+    from rules.decisions import decision_table, table_sites
+    rep.rule("C12.Y15", "decision table of root validation: every action site of _validate_provider_roots is reached under exactly the recorded path condition", table_sites("C12"))
+    section(rep, lambda: decision_table(ctx, rep, "C12.Y15", "C12"))
